@@ -93,6 +93,19 @@ def c_velocity(chk):
     chk.vc("plasmaVelocity.subluminal", p.pc + [Gt(w, 0)], And(Gt(v, -1), Lt(v, 1)), func=fn)
     chk.vc("plasmaVelocity.sign", p.pc + [Gt(w, 0)], Gt(v * s1, 0), func=fn)
     chk.canary("plasmaVelocity.energy-flux", p.pc, Eq(w * v, -s1 * (1 - v * v)), func=fn)
+    from wgvc.crosscheck import Cross, poly_chain, to_native_poly, to_callable
+
+    def functions(rnd):
+        xs, fam = poly_chain(rnd, ["dVeff_dT"], nvars=3, deg=2)
+        return ({"dVeff_dT": to_native_poly(xs, fam["dVeff_dT"])}, {"dVeff_dT": to_callable(xs, fam["dVeff_dT"])})
+
+    def scenario(env):
+        pot = {"__stub__": "object", "methods": {"derivT": "dVeff_dT"}}
+        return {"module": "WallGo.equationOfMotion", "method": "plasmaVelocity", "args": [[env["phi0"], env["phi1"]], env["T"], env["s1"]],
+                "self": {"__stub__": "real", "module": "WallGo.equationOfMotion", "class": "EOM",
+                         "attrs": {"thermo": {"__stub__": "namespace", "attrs": {"effectivePotential": pot}}}}}
+    chk.cross(Cross("EOM.plasmaVelocity", [p], lambda rnd: {"phi0": rnd.uniform(-1, 1), "phi1": rnd.uniform(-1, 1), "T": rnd.uniform(0.5, 2),
+                                                            "s1": rnd.choice([-1, 1]) * rnd.uniform(0.1, 2)}, scenario, functions=functions))
     return v
 
 
